@@ -8,7 +8,7 @@ from mirq import callee, fmt_origin, origin_calls, strip_refs
 def summaries(ctx):
     s = {}
     for n in ("insim::net::mode::Mode::max_length", "insim::net::mode::Mode::valid_raw_buffer_min_len"):
-        tb = absint.const_table_summary(ctx.mir, n)
+        tb = absint.const_table_summary(ctx.mir, n, ctx.ast)
         if tb is not None:
             s[n] = absint.make_table_summary(tb)
     return s
@@ -27,8 +27,8 @@ def run(ctx, rep):
     if ib is not b:
         rep.notes.append("R3.3: private helper(s) of insim::net::mode inlined into encode_length")
         b = ib
-    ml = absint.const_table_summary(mir, "insim::net::mode::Mode::max_length")
-    mn = absint.const_table_summary(mir, "insim::net::mode::Mode::valid_raw_buffer_min_len")
+    ml = absint.const_table_summary(mir, "insim::net::mode::Mode::max_length", ctx.ast)
+    mn = absint.const_table_summary(mir, "insim::net::mode::Mode::valid_raw_buffer_min_len", ctx.ast)
     names = {v["idx"]: v["name"] for v in mode["variants"]}
     want = {"Uncompressed": 255, "Compressed": 1020}
     got = {names.get(k): v for k, v in (ml or {}).items()}
@@ -82,7 +82,7 @@ def contract(ctx, rep, b, rows, vi, vn, hi):
             return v
         if name.startswith("insim::net::mode::"):
             if name not in tables:
-                tables[name] = absint.const_table_summary(ctx.mir, name)
+                tables[name] = absint.const_table_summary(ctx.mir, name, ctx.ast)
             tb = tables[name]
             if tb is not None:
                 return tb.get(vi, tb.get(None))
@@ -95,7 +95,8 @@ def contract(ctx, rep, b, rows, vi, vn, hi):
             return ev.len
         return None
     from mirq import strip_refs
-    ev = tabeval.Evaluator(leaf, call)
+    model = tabeval.Model(ctx, b, None, local_prefix="insim::net::mode::", extra_leaf=lambda o, m: leaf(o), extra_call=lambda d, rd, args, m: call(d, rd, args, m.ev))
+    ev = model.ev
     bad = {"rows": None, "divisible-by-4": None, "size-value": None, "range": None, "accepts-valid": None}
     undecided = None
     n_ok = 0
@@ -148,6 +149,11 @@ def encode_inventory(ctx, rep):
     inst = duration_instances(ctx)
 
     def extra(s):
+        if s["fn"] == "insim::net::mode::Mode::encode_length" and s["kind"] == "assert" and s["what"] in ("div_zero", "rem_zero"):
+            r33 = [i for i in rep.instances if i["rule"] == "R3.3" and i["key"].endswith((":rows", ":size-value", ":accepts-valid", ":table"))]
+            if r33 and all(i["ok"] for i in r33):
+                return "the divisor does not depend on the length; R3.3 evaluated encode_length's table for both modes with these very divisions (a zero divisor would trap on every row and no length would be accepted)"
+            return None
         if s["fn"] == "insim::net::codec::Codec::encode" and s["kind"] == "precondition" and s["what"].endswith("index_mut"):
             r34 = [i for i in rep.instances if i["rule"] == "R3.4"]
             if r34 and all(i["ok"] for i in r34):
